@@ -18,7 +18,7 @@ META = dict(
         quick="exact analysis: all graphs (connected and disconnected) on <=4 nodes, element in {C,N}, charge in {0,1}, "
               "bond order in {1,2}, all symbolic; fast estimate (AutoEst): all graphs on <=4 nodes with <=4 bonds (labels "
               "are hashed there, so enumerated); de-duplication: all lists of <=3 injective matches of a 3-node pattern "
-              "into 4 host nodes under solver-chosen orbit partitions, anchors and host orbits",
+              "into 3 host nodes under solver-chosen orbit partitions, anchors and host orbits",
         thorough="adds 5-node graphs with <=5 bonds, C5, C6, K2,3 for the exact analysis; 5-node shapes for the estimate",
     ),
     outside=["graphs > 5 nodes (6 for the listed families)", "directed graphs", "OrbitAccuracy report helper"],
@@ -118,10 +118,10 @@ def h_dedup(E, k, with_host):
     """deduplicate_matches_with_anchor: order-preserving sub-list, first match kept, idempotent."""
     from synkit.Graph.Matcher.dedup_matches import deduplicate_matches_with_anchor as dd
 
-    P, H = [1, 2, 3], [11, 12, 13, 14]
+    P, H = [1, 2, 3], [11, 12, 13]
     matches = []
     for i in range(k):
-        img = [E.int("m%d_%d" % (i, p), 0, 3) for p in P]
+        img = [E.int("m%d_%d" % (i, p), 0, 2) for p in P]
         E.assume(AND(NOT(EQ(img[0], img[1])), NOT(EQ(img[0], img[2])), NOT(EQ(img[1], img[2]))))
         partial = bool(E.bool("partial%d" % i))
         d = {p: H[int(x)] for p, x in zip(P, img)}
@@ -129,13 +129,18 @@ def h_dedup(E, k, with_host):
             d.pop(3)
         matches.append(d)
     # pattern orbit partition via block labels, anchor = one block or empty
-    blocks = [int(E.int("pb%d" % p, 0, 2)) for p in P]
+    # set partitions as restricted-growth strings
+    pb = [E.int("pb%d" % p, 0, 2) for p in P]
+    E.assume(AND(EQ(pb[0], 0), term_bool(pb[1] <= 1), OR(term_bool(pb[2] <= 1), EQ(pb[1], 1))))
+    blocks = [int(x) for x in pb]
     porb = [frozenset(p for p, b in zip(P, blocks) if b == x) for x in sorted(set(blocks))]
     anchor_block = int(E.int("anchor", -1, 2))
     anchor = frozenset(p for p, b in zip(P, blocks) if b == anchor_block)
     horb = None
     if with_host:
-        hb = [int(E.int("hb%d" % h, 0, 1)) for h in H]
+        hbs = [E.int("hb%d" % h, 0, 2) for h in H]
+        E.assume(AND(EQ(hbs[0], 0), term_bool(hbs[1] <= 1), OR(term_bool(hbs[2] <= 1), EQ(hbs[1], 1))))
+        hb = [int(x) for x in hbs]
         horb = [frozenset(h for h, b in zip(H, hb) if b == x) for x in sorted(set(hb))]
     use_p = bool(E.bool("use_pattern_orbits"))
     kw = dict(pattern_orbits=porb if use_p else None, pattern_anchor=anchor if use_p else None, host_orbits=horb)
